@@ -51,11 +51,17 @@ Check(t) ==
          ELSE IF \E i \in J : ~VolClose(vol(i), Vol(e, env(i))) THEN <<"volume-value", "", Cardinality(J)>>
          ELSE IF \E j \in DOMAIN t.single : t.single[j].vol_exc = "" /\ j \in J /\ ~VolClose(t.single[j].vol[1], Vol(e, env(j))) THEN <<"volume-value(single row)", "", Cardinality(J)>>
          ELSE IF t.uservol_exc # "" \/ \E i \in DOMAIN t.uservol : t.uservol[i] # 5 * 1024 THEN <<"user-set-volume-not-used", "", Cardinality(J)>>
+         \* the volume of a product follows a volume the user sets on a factor later (3 * measure of the other factor)
+         ELSE IF t.factorvol_exc \notin {"", "none"} THEN <<"product-volume-after-factor-override-failed", "", Cardinality(J)>>
+         ELSE IF t.factorvol_exc = "" /\ Len(t.factorvol) \notin {1, nrows} THEN <<"one-volume-per-row(after factor override)", "", Cardinality(J)>>
+         ELSE IF t.factorvol_exc = "" /\ \E i \in J : LET m == Vol(e.r, env(i))  v == IF Len(t.factorvol) = 1 THEN t.factorvol[1] ELSE t.factorvol[i]
+                                                        IN ~VolClose(v, <<3 * m[1], 3 * m[2], m[3]>>) THEN <<"product-ignores-user-set-volume-of-factor", "", Cardinality(J)>>
          ELSE IF Exact(e) /\ (t.usercount_exc # "" \/ t.usercount # 10) THEN <<"density-count-ignores-user-set-volume", "", Cardinality(J)>>
          ELSE IF ExactT(e) /\ t.usercount_exc = "" /\ t.usercount # 10 THEN <<"density-count-ignores-user-set-volume", "", Cardinality(J)>>
          ELSE IF 1 \in J /\ Exact(e) /\ \E c \in {t.counts[i] : i \in DOMAIN t.counts} :
                     c.kind = "random" /\ (c.exc # "" \/ ~CountOK(c.n, c.dn, c.dd, Vol(e, env(1)))) THEN <<"density-count(random)", "", Cardinality(J)>>
-         ELSE IF 1 \in J /\ Exact(e) /\ \E c \in {t.counts[i] : i \in DOMAIN t.counts} :
+         \* (the triangle's random sampler rejects, its grid is a regular barycentric grid: the grid count is judged)
+         ELSE IF 1 \in J /\ (Exact(e) \/ e.k = "tri") /\ \E c \in {t.counts[i] : i \in DOMAIN t.counts} :
                     c.kind = "grid" /\ c.exc = "" /\ \A n2 \in c.n..(c.n + 400) : ~CountOK(n2, c.dn, c.dd, Vol(e, env(1))) THEN <<"density-count(grid more than d*vol)", "", Cardinality(J)>>
          ELSE <<"ok", "", Cardinality(J)>>
 Init == tid \in 1..Len(Traces) /\ LET r == Check(Traces[tid]) IN verdict = r[1] /\ dev = r[2] /\ judged = r[3]
